@@ -96,6 +96,12 @@ def gen_object(rnd):
 
 def gen_c14(rnd, n, thorough=False):
     cases = []
+    # headers of every length a valid file can have (1 to 30 archives), written by Create + Sync and read
+    # back by Open: the decoder's retry with a larger buffer gets the header AppendTo encoded
+    for k in ([1, 2, 20, 21, 22, 25, 30] if not thorough else list(range(1, 31))):
+        lay = [(2 ** i, 2) for i in range(k)]
+        cases.append({'id': 'c14-arch%d' % k, 'lines': ["create f %s m %d x %08x" % (fmt_layout(lay), rnd.pick(METHODS), rnd.pick(XFF_VALID)), "sync f", "open f", "hdr f", "hdrof f",
+                                                        "enc header 2 3f000000 %s" % fmt_layout(lay)], 'tags': {'kind': 'header_of_%d_archives' % k}})
     for c in range(n):
         kind, line, enc = gen_object(rnd)
         lines = [line]
@@ -161,7 +167,7 @@ def gen_c15(rnd, n, thorough=False):
         tags = {'ops': {}}
         def add(op, line):
             lines.append(line); tags['ops'][op] = tags['ops'].get(op, 0) + 1
-        kind = rnd.pick(['decoders', 'decoders', 'file_truncated', 'file_garbage_slots', 'file_garbage_slots', 'file_garbage_slots', 'file_huge_header', 'file_random', 'file_bitflip', 'file_field', 'file_field', 'file_count_page'])
+        kind = rnd.pick(['decoders', 'decoders', 'file_truncated', 'file_garbage_slots', 'file_garbage_slots', 'file_garbage_slots', 'file_huge_header', 'file_random', 'file_bitflip', 'file_field', 'file_field', 'file_count_page', 'file_base', 'file_base'])
         if kind == 'decoders':
             for _ in range(rnd.randint(3, 8)):
                 k2, _line, enc = gen_object(rnd)
@@ -241,6 +247,16 @@ def gen_c15(rnd, n, thorough=False):
                 else:
                     v = rnd.pick([0, 1, cur + 1, max(cur - 1, 0), cur + 12, 2 ** 31 - 1, 2 ** 31, 2 ** 32 - 1, 0x7fc00000, 0xbf800000, 0x3f800001])
                 img = img[:4 * j] + be32(v) + img[4 * j + 4:]
+            elif kind == 'file_base':
+                # a healthy file whose only damage is the time stamp of slot 0 of one archive (the ring's base):
+                # one bit flipped -- the lowest (no longer a multiple of the step), the highest (2^31 s away), another
+                a0 = rnd.randrange(k)
+                off = 16 + 12 * k + 12 * sum(nn for _, nn in layout[:a0])
+                cur = int.from_bytes(img[off:off + 4], 'big')
+                if cur == 0:
+                    cur = now - now % layout[a0][0]
+                bit = rnd.pick([0, 0, 31, 31, 1, rnd.randrange(32)])
+                img = img[:off] + be32(cur ^ (1 << bit)) + img[off + 4:]
             elif kind == 'file_bitflip':
                 b = bytearray(img)
                 for _f in range(rnd.randint(1, 4)):
@@ -256,6 +272,16 @@ def gen_c15(rnd, n, thorough=False):
                 a = rnd.pick([-1] + list(range(k)))
                 for fr, un in windows(rnd, layout, a, now, 1):
                     add('hfetch', 'hfetch f %d %d %d %d' % (a, fr, un, now))
+            if kind == 'file_base':
+                # every one-slot and two-slot window of every archive, and updates all over the finest one
+                for a_, (s_, nn_) in enumerate(layout):
+                    hi = now - now % s_
+                    for j_ in range(nn_ + 1):
+                        add('hfetch', 'hfetch f %d %d %d %d' % (a_, hi - j_ * s_ - 1, hi - j_ * s_, now))
+                        if j_ % 3 == 0:
+                            add('hfetch', 'hfetch f %d %d %d %d' % (a_, hi - j_ * s_ - s_ - 1, hi - j_ * s_, now))
+                for j_ in range(layout[0][1]):
+                    add('hupd', 'hupd f -1 %d %016x %d' % (now - j_ * layout[0][0], small_value(rnd), now))
             add('hraw', 'hraw f %d' % rnd.randrange(k))
             S0, N0 = layout[0]
             add('hupd', 'hupd f %d %d %016x %d' % (rnd.pick([-1, 0]), now - rnd.randint(0, S0 * N0 - 1), small_value(rnd), now))
